@@ -127,6 +127,10 @@ fn work(round_seed: u64, shared_f: &[Arc<FlatEx<f64>>], shared_d: &[Arc<DeepEx<'
             }
             Err(_) => out.push("E".into()),
         }
+        // malformed nested texts: a failing parse must leave nothing behind
+        for bad in ["((((((x+1)(x-1))))))", "(((((1 2)))))", "((((x y))))"] {
+            out.push(format!("bad:{}", DeepEx::<f64>::parse(bad).is_ok() || FlatEx::<f64>::parse(bad).is_ok()));
+        }
         let vt = VAL_TEXTS[r.below(VAL_TEXTS.len())];
         match exmex::parse_val::<i32, f64>(vt) {
             Ok(e) => {
